@@ -493,7 +493,9 @@ func (fm fieldMap) normalizeUnsetID(key string) {
 func (fm fieldMap) hexDecode(key string) error {
 	field, err := fm.find(key)
 	if err != nil {
-		return err
+		// The field is absent or was dropped as a placeholder, e.g.
+		// exe=(null) for kernel threads. There is nothing to decode.
+		return nil
 	}
 
 	// Use the original value that may or may not contain a leading quote.
